@@ -121,4 +121,19 @@ U(name="U.lang.phrase_decode_explicit", harness="harness/lang_decode.c", mode="H
 U(name="U.lang.get_comparer", harness="harness/lang_decode.c", mode="H", defines=["UNIT_COMPARER"], object_bits=14,
   functions=["get_comparer"], props=["C07", "C08"])
 
+DEC_RC = [("utf8_nfkd_lazy", "contract_nfkd_lazy"), ("str_split", "contract_str_split"), ("gf_poly_check", "contract_gf_poly_check")]
+U(name="U.api.decode", harness="harness/api_decode.c", mode="H", profiles=["decode"], replace_calls=DEC_RC,
+  functions=["polyseed_decode"], unwind=POLYSEED_STR_SIZE_PLUS1,
+  props=["C01", "C02", "C05", "C09", "C10", "C13", "C14", "C15", "C16"], timeout=900)
+U(name="U.api.decode_explicit", harness="harness/api_decode.c", mode="H", profiles=["decode"], replace_calls=DEC_RC,
+  defines=["UNIT_EXPLICIT"], functions=["polyseed_decode_explicit"], unwind=POLYSEED_STR_SIZE_PLUS1,
+  props=["C01", "C02", "C05", "C09", "C10", "C13", "C14", "C15", "C16"], timeout=900)
+
+U(name="U.api.crypt", harness="harness/api_crypt.c", mode="H", profiles=["crypt"],
+  replace_calls=[("utf8_nfkd_lazy", "contract_nfkd_lazy"), ("gf_poly_encode", "contract_gf_poly_encode")],
+  functions=["polyseed_crypt"], exact_loops=[("polyseed_crypt", 0, 19)], unwind=POLYSEED_STR_SIZE_PLUS1,
+  props=["C12", "C13", "C14", "C16"], timeout=900)
+U(name="L.crypt.involution", harness="harness/lem_crypt.c", mode="P", props=["C12", "C04"])
+U(name="L.crypt.wrongpw", harness="harness/lem_crypt.c", mode="P", defines=["LEMMA_WRONGPW"], props=["C12"])
+
 BY_NAME = {u.name: u for u in UNITS}
